@@ -106,6 +106,8 @@ def project(acts, unit, consts, run_id, tag, prefix=None):
                 steps.append(dict(op='gwpolicy', s='conn', act=dict(silent='silent', err='refuse', foreign='busy')[mode]))
                 steps.append(dict(op='net', dir='c2g', act='deliver', svc='ConnReq', i=0))
                 steps.append(dict(op='gwpolicy', s='conn', act='ok'))
+        elif n == 'wfail':    # a transient local error is armed for the next write of a frame of this service type
+            steps.append(dict(op='sockfail', act='once', svc=a['svc']))
         elif n == 'gwtele':
             steps.append(dict(op='gwtele', p=2000 + i))
         elif n == 'gwresend':
